@@ -69,25 +69,46 @@ def check_hints(ctx: Ctx, case) -> None:
     # a second chart with another tempo map is alive and answers queries in between (no shared state)
     # (every tempo a little faster, so every tick stays inside the time domain)
     shadow = _bpm_events(ctx, {"res": case["res"], "tempo": [[a, b + 1 + b // 3] for a, b in case["tempo"]]})
-    for ti, t in enumerate(case["ticks"]):
+    # ticks are visited in zigzag order (largest, smallest, second largest, ...): consecutive lookups
+    # then lie in far-apart tempo regions, in both directions
+    srt = sorted(case["ticks"])
+    zigzag = [srt[-(k // 2) - 1] if k % 2 == 0 else srt[k // 2] for k in range(len(srt))]
+    for ti, t in enumerate(zigzag if len(srt) % 2 else srt):
         if shadow is not None and ti % 2:
             try:
                 shadow.timestamp_at_tick(t)
             except Exception:  # noqa: BLE001  (the shadow is not under test)
                 pass
         g = tm.governing(t)
-        try:
-            base_ts, base_idx = bpm.timestamp_at_tick(t)
-            plain = bpm.timestamp_at_tick_no_optimize_return(t)
-        except Exception as e:  # noqa: BLE001
-            ctx.fail("unhinted-answers", f"un-hinted query({t}) raised {type(e).__name__}: {e}", case)
+        # hints in ascending, descending or interleaved order, and the un-hinted reference lookups either
+        # before or AFTER the hinted ones (lookups must not remember each other: a rejected lookup is followed
+        # by accepted ones for the same tick and vice versa, sometimes with no un-hinted lookup in between)
+        hint_order = list(range(0, n + 1))
+        if ti % 3 == 1:
+            hint_order.reverse()
+        elif ti % 3 == 2:
+            hint_order = hint_order[1::2] + hint_order[0::2][::-1]
+        base_first = ti % 4 < 2
+
+        def base_lookup():
+            try:
+                base_ts_, base_idx_ = bpm.timestamp_at_tick(t)
+                plain_ = bpm.timestamp_at_tick_no_optimize_return(t)
+            except Exception as e:  # noqa: BLE001
+                ctx.fail("unhinted-answers", f"un-hinted query({t}) raised {type(e).__name__}: {e}", case)
+                return None
+            if base_idx_ != g:
+                ctx.fail("governing-index", f"tick {t}: returned index {base_idx_}, last tempo event at or "
+                                            f"before the tick is {g}", case)
+            if plain_ != base_ts_:
+                ctx.fail("queries-agree", f"tick {t}: {plain_} != {base_ts_}", case)
+            return base_ts_
+
+        base_ts = base_lookup() if base_first else None
+        if base_first and base_ts is None:
             continue
-        if base_idx != g:
-            ctx.fail("governing-index", f"tick {t}: returned index {base_idx}, last tempo event at or "
-                                        f"before the tick is {g}", case)
-        if plain != base_ts:
-            ctx.fail("queries-agree", f"tick {t}: {plain} != {base_ts}", case)
-        for h in range(0, n + 1):
+        outcomes = []
+        for h in hint_order:
             n_eval += 1
             if shadow is not None and (ti + h) % 5 == 0:
                 try:
@@ -97,23 +118,33 @@ def check_hints(ctx: Ctx, case) -> None:
             try:
                 got = bpm.timestamp_at_tick(t, start_iteration_index=h)
             except ValueError:
-                if h <= g:
-                    ctx.fail("valid-hint-rejected", f"tick {t}, hint {h} <= governing {g}: ValueError",
-                             case)
-                ctx.classes["hint>g" if h < n else "hint=len"] += 1
+                outcomes.append((h, None))
                 continue
             except Exception as e:  # noqa: BLE001
                 ctx.fail("hint-error-type", f"tick {t}, hint {h}: {type(e).__name__}: {e} (only "
                                             f"ValueError is documented)", case)
                 continue
-            if h > g:
+            outcomes.append((h, got))
+        if not base_first:
+            base_ts = base_lookup()
+            if base_ts is None:
+                continue
+        for h, got in outcomes:
+            if got is None:
+                if h <= g:
+                    ctx.fail("valid-hint-rejected", f"tick {t}, hint {h} <= governing {g}: ValueError "
+                                                    f"(hints tried in order {hint_order[:12]})", case)
+                ctx.classes["hint>g" if h < n else "hint=len"] += 1
+            elif h > g:
                 ctx.fail("bad-hint-accepted",
                          f"tick {t}, hint {h} lies beyond governing index {g} but the query returned "
-                         f"{got[0]} (index {got[1]}) instead of raising ValueError", case)
+                         f"{got[0]} (index {got[1]}) instead of raising ValueError (hints tried in order "
+                         f"{hint_order[:12]})", case)
             elif got[0] != base_ts or got[1] != g:
                 ctx.fail("hint-visible", f"tick {t}, hint {h}: ({got[0]}, {got[1]}) != un-hinted "
-                                         f"({base_ts}, {g})", case)
-            ctx.classes["hint<g" if h < g else "hint=g"] += 1
+                                         f"({base_ts}, {g}) (hints tried in order {hint_order[:12]})", case)
+            else:
+                ctx.classes["hint<g" if h < g else "hint=g"] += 1
     ctx.note(case, nontrivial=n >= 3, classes=[f"tempo_events_{min(n, 10)}"],
              sample={"res": case["res"], "tempo": case["tempo"][:6], "ticks": case["ticks"][:10],
                      "hints": f"0..{n}"})
